@@ -676,16 +676,33 @@ func c07(r *core.Run) {
 						continue
 					}
 				}
-				src := resolve(st.Val)
-				if _, isParam := src.(*ssa.Parameter); !isParam {
-					o.Unres("%s: workers set to %s: shape not understood", p.InstrPos(st), core.Describe(st.Val))
-					continue
-				}
-				same := func(v ssa.Value) bool { return resolve(v) == src }
-				atom := core.AnyOf(core.Cmp(token.GEQ, same, core.IsConstInt(1)), core.Cmp(token.GTR, same, core.IsConstInt(0)))
-				if w := core.Requires(f, core.Is(st), atom); w != nil {
-					o.Fail(p.InstrPos(st), "workers set to %s without testing it to be >= 1: with 0 workers the dispatcher blocks forever on the pool", core.Describe(st.Val))
-				}
+				// every value that may be stored (φ leaves): a constant >= 1, or a caller's number on a
+				// path / φ edge on which it was found to be >= 1
+				gxLeavesWithEdges(st.Val, func(leaf ssa.Value, edge *core.Edge) {
+					if n, ok := core.ConstInt(core.Strip(leaf)); ok {
+						if n < 1 {
+							o.Fail(p.InstrPos(st), "workers set to %d", n)
+						}
+						return
+					}
+					src := resolve(leaf)
+					if _, isParam := src.(*ssa.Parameter); !isParam {
+						o.Unres("%s: workers set to %s: shape not understood", p.InstrPos(st), core.Describe(leaf))
+						return
+					}
+					same := func(v ssa.Value) bool { return resolve(v) == src }
+					atom := gxAtLeast(same, 1)
+					if edge != nil {
+						holds, _ := core.EdgesOf(f, atom)
+						if gxEdgeReachable(f, *edge, holds) {
+							o.Fail(p.InstrPos(st), "workers set to %s without testing it to be >= 1: with 0 workers the dispatcher blocks forever on the pool", core.Describe(leaf))
+						}
+						return
+					}
+					if w := core.Requires(f, core.Is(st), atom); w != nil {
+						o.Fail(p.InstrPos(st), "workers set to %s without testing it to be >= 1: with 0 workers the dispatcher blocks forever on the pool", core.Describe(leaf))
+					}
+				})
 			}
 		}
 	})
